@@ -219,6 +219,21 @@ CLAIMED = {
         design_ref="DESIGN.md section 5 C18",
         note="Trusted: TLC, the adapter's lexical split of a serialised literal into sign/digits/unit and '%.15g' rendering of the typed "
              "value. hsl() only where the CSS3 formula is exact in integers. Known findings shared with C03 for quoted content."),
+    "C13": dict(
+        technique="TLA+ table oracle transcribed from the CSS 2.1 property index (ValidateContract: keyword sets and accepted value kinds "
+                  "for 55 properties, Accepts / Open), rows enumerated by TLC (Validate.tla, vacuity guard TableNonTrivial); "
+                  "metamorphic contract (spelling, round trip, origin, @font-face context, serializer preferences, validation "
+                  "on/off) over every property name known to /repo; TLC trace monitor",
+        text="Exhaustive over the table: 55 properties x (all keywords of all tabled properties + near misses + 18 value kinds + "
+             "inherit) = 6804 rows judged against an oracle that is independent of profiles.py; metamorphic rows for all ~250 known "
+             "property names x 22 candidate values (a third per quick run): verdict equal under case/whitespace/comment/quote "
+             "respelling and under omitLeadingZero, after serialise/reparse, for parsed / setProperty / Property object / rule "
+             "constructor origins in a style rule and in @font-face, rule.valid and sheet.valid are conjunctions, stored and "
+             "serialised content identical with validation on and off; unknown names never valid.",
+        design_ref="DESIGN.md section 5 C13",
+        note="Trusted: TLC, the transcription of CSS 2.1. Multi-component grammars are covered metamorphically only; values the prose (not "
+             "the grammar) forbids and CSS3 extensions of tabled properties are left open. Two known findings (explicit '+' sign, "
+             "min-width: none)."),
 }
 PENDING = "check not built yet in this round (see DESIGN.md section 10 build order); no claim is made"
 NOT_APPLICABLE = {}
